@@ -1799,7 +1799,9 @@ def state_rule(repo, rep, rule=None):
                    "container attributes, attribute stores of templates "
                    "and loaders) in the property's modules equals the "
                    "reviewed one")
-    return g_state(repo, rep, rule, mods, "%s modules" % prop)
+    r = g_state(repo, rep, rule, mods, "%s modules" % prop)
+    argswap_rule(repo, rep, mods=mods)
+    return r
 
 
 # ---------------------------------------------------------------------------
@@ -1830,3 +1832,163 @@ def inlined_text(fnode, expr_or_text):
     if isinstance(e, str):
         e = ast.parse(e, mode="eval").body
     return src(inline_locals(fnode, e))
+
+
+# ---------------------------------------------------------------------------
+# G-ARGSWAP: an argument named like another parameter of the callee
+
+
+def _callee_params(repo, f, call):
+    """positional parameter names of the function / class a call resolves to
+    (methods without self; node classes by their ``_fields``) or None"""
+    fn = call.func
+    mod = f.module
+    target = None
+    if isinstance(fn, ast.Attribute) and isinstance(fn.value, ast.Name) and \
+            fn.value.id in ("self", "cls") and f.cls is not None:
+        m = repo.method(f.cls, fn.attr)
+        if m is not None:
+            target = ("func", m)
+    elif isinstance(fn, (ast.Name, ast.Attribute)):
+        target = repo.resolve_attr(mod, fn)
+    if not target:
+        return None
+    if target[0] == "func":
+        g = target[1]
+        a = g.node.args
+        names = [x.arg for x in a.posonlyargs + a.args]
+        if g.cls is not None and names and not any(
+                src(d) == "staticmethod" for d in g.node.decorator_list):
+            names = names[1:]
+        return names, g.qualname, a.vararg is not None
+    if target[0] == "class":
+        ci = target[1]
+        init = repo.method(ci, "__init__")
+        fields, _k = repo.class_attr(ci, "_fields")
+        if fields is not None and isinstance(fields, (ast.Tuple, ast.List)) \
+                and all(isinstance(e, ast.Constant) for e in fields.elts):
+            return [e.value for e in fields.elts], ci.qualname, False
+        if fields is not None and isinstance(fields, ast.Constant) and \
+                isinstance(fields.value, str):
+            return [fields.value], ci.qualname, False
+        if init is not None and init.cls is not None and \
+                init.module.name.startswith("chameleon"):
+            a = init.node.args
+            return [x.arg for x in a.posonlyargs + a.args][1:], \
+                ci.qualname, a.vararg is not None
+    return None
+
+
+def argswap_sites(repo, mods=None):
+    """Call sites of package functions / node classes where a positional
+    argument is a plain name that is the name of ANOTHER parameter of the
+    callee, while that other parameter is given something else: the caller
+    holds a value it calls 'key' and passes it as 'translate'.
+    -> (number of calls with a resolvable callee, number of name-matched
+    arguments, [(Func, call, description)])"""
+    n_calls = n_named = 0
+    bad = []
+    for q, f in sorted(repo.funcs.items()):
+        if mods is not None and f.module.name not in mods:
+            continue
+        for c in ast.walk(f.node):
+            if not isinstance(c, ast.Call) or any(
+                    isinstance(a, ast.Starred) for a in c.args):
+                continue
+            r = _callee_params(repo, f, c)
+            if r is None:
+                continue
+            params, cq, has_var = r
+            n_calls += 1
+            given = {}
+            for i, a in enumerate(c.args):
+                if i < len(params):
+                    given[params[i]] = a
+            for k in c.keywords:
+                if k.arg:
+                    given[k.arg] = k.value
+            for i, a in enumerate(c.args):
+                if i >= len(params) or not isinstance(a, ast.Name):
+                    continue
+                if a.id == params[i]:
+                    n_named += 1
+                    continue
+                if a.id in params:
+                    other = given.get(a.id)
+                    if other is None or not (isinstance(other, ast.Name)
+                                             and other.id == a.id):
+                        bad.append((f, c, "'%s' is passed as parameter '%s' "
+                                    "of %s, whose parameter '%s' gets %s" % (
+                                        a.id, params[i], cq.split(".")[-1],
+                                        a.id, src(other)[:40]
+                                        if other is not None else "nothing")))
+    return n_calls, n_named, bad
+
+
+def argswap_rule(repo, rep, rule=None, mods=None):
+    rule = rule or "R%s.A" % rep.prop[1:]
+    rep.rule(rule, "G-ARGSWAP: no call passes a value the caller names like "
+                   "one parameter of the callee in the place of another")
+    n_calls, n_named, bad = argswap_sites(repo, mods)
+    if n_calls < 200 and mods is None:
+        raise AnalysisError("only %d resolvable calls found" % n_calls)
+    rep.count("resolved_calls", n_calls)
+    for f, c, why in bad:
+        rep.bad(rule, f.qualname, "arguments reach the parameters they are "
+                "named after", construct="argswap:%s" % src(c.func)[:40],
+                detail=why, where=where(f, c.lineno))
+    rep.check(not bad, rule, "chameleon.*", "%d calls of package functions "
+              "and node classes resolved, %d arguments named like their "
+              "parameter, none named like a different one" % (
+                  n_calls, n_named), construct="argswap")
+
+
+def int_guard_truth(test, var, value):
+    """Truth value of a guard that compares one integer variable with
+    constants (``index > 0``, ``index``, ``not index``, ``0 < index``,
+    ``index != 0 and index < 9``) for ``var == value``; None if the guard is
+    anything else.  This is arithmetic on a one-line condition, not
+    execution of repository code."""
+    def ev(e):
+        if isinstance(e, ast.Constant) and isinstance(e.value, (int, bool)):
+            return e.value
+        if isinstance(e, ast.Name) and e.id == var:
+            return value
+        if isinstance(e, ast.UnaryOp) and isinstance(e.op, ast.Not):
+            v = ev(e.operand)
+            return None if v is None else (not v)
+        if isinstance(e, ast.UnaryOp) and isinstance(e.op, ast.USub):
+            v = ev(e.operand)
+            return None if v is None else -v
+        if isinstance(e, ast.BinOp) and isinstance(
+                e.op, (ast.Add, ast.Sub)):
+            a, b = ev(e.left), ev(e.right)
+            if a is None or b is None:
+                return None
+            return a + b if isinstance(e.op, ast.Add) else a - b
+        if isinstance(e, ast.BoolOp):
+            vals = [ev(x) for x in e.values]
+            if any(v is None for v in vals):
+                return None
+            return all(vals) if isinstance(e.op, ast.And) else any(vals)
+        if isinstance(e, ast.Compare):
+            left = ev(e.left)
+            if left is None:
+                return None
+            res = True
+            for op, c in zip(e.ops, e.comparators):
+                right = ev(c)
+                if right is None:
+                    return None
+                r = {ast.Gt: left > right, ast.GtE: left >= right,
+                     ast.Lt: left < right, ast.LtE: left <= right,
+                     ast.Eq: left == right, ast.NotEq: left != right}.get(
+                         type(op))
+                if r is None:
+                    return None
+                res = res and r
+                left = right
+            return res
+        return None
+    r = ev(test)
+    return None if r is None else bool(r)
